@@ -104,6 +104,21 @@ def build_and_audit(pid, extra_targets=()):
     return r
 
 
+def transitive_imports(mod):
+    """modules of this project that `mod` imports, directly or indirectly (read from the `import` lines)"""
+    seen, todo = set(), [mod]
+    while todo:
+        m = todo.pop()
+        if m in seen: continue
+        seen.add(m)
+        p = os.path.join(LEAN, *m.split('.')) + '.lean'
+        if not os.path.exists(p): continue
+        for l in open(p, encoding='utf-8'):
+            mm = re.match(r'^import\s+(TealerModel\.\S+)', l)
+            if mm: todo.append(mm.group(1))
+    return seen
+
+
 def failing_theorems(pid, log):
     p = os.path.join(LEAN, 'TealerModel', 'Props', f'{pid}.lean')
     lines = open(p, encoding='utf-8').read().split('\n')
